@@ -86,7 +86,7 @@ func init() {
 			switch {
 			case strings.HasSuffix(d, ".Credit.Amount"):
 				okCredit = true
-			case strings.Contains(d, limit) && strings.Contains(d, "GetSubTrackedCuInfo)(") && strings.Contains(d, "#1"):
+			case strings.Contains(d, limit) && strings.Contains(d, "GetSubTrackedCuInfo)(") && strings.Contains(d, ")#1"):
 				// LIMIT·totalCu in either arithmetic; taken only past a greater-than test that involves the credit
 				if in, ok := lf.(ssa.Instruction); ok && ir.HasFact(ir.GuardFacts(in), "call(cosmossdk.io/math.Int.GT)(", ".Credit.Amount") {
 					okCap = true
@@ -205,7 +205,9 @@ func init() {
 			}
 		}
 		if n := len(c.CallsByName(rst, false, "x/fixationstore/types.FixationStore.DelEntry")); n == 1 {
-			c.RequireGuards("C11d", c.CallsByName(rst, false, "x/fixationstore/types.FixationStore.DelEntry"), "DelEntry", FactHas("is-latest", "FindEntryDetailed)(", "#2"))
+			c.RequireGuards("C11d", c.CallsByName(rst, false, "x/fixationstore/types.FixationStore.DelEntry"), "DelEntry", GuardSpec{Name: "is-latest", Match: func(g ir.Guard) bool {
+				return hasResultFact([]string{g.Fact}, "FixationStore.FindEntryDetailed)(", 2, true)
+			}})
 		} else {
 			c.Fail("C11d/resetCuTracker/deletes-entry", c.P.Pos(rst.Pos()), "resetCuTracker no longer deletes the tracker entry")
 		}
@@ -263,7 +265,7 @@ func init() {
 			}
 			switch {
 			case strings.HasSuffix(ir.CalleeName(call), "types.Coin.AddAmount") && ir.Desc(call.Args[1]) == "param#2":
-				if ir.HasFact(ir.GuardFacts(in), "FindEntryDetailed)(", "#3") {
+				if hasResultFact(ir.GuardFacts(in), "FixationStore.FindEntryDetailed)(", 3, true) {
 					okAdd = true
 				}
 			case strings.HasSuffix(ir.CalleeName(call), "BankKeeper.SendCoinsFromModuleToModule"):
